@@ -1,10 +1,50 @@
+//! vharness <property> --out FILE [--seed N] [--tier quick|thorough] [--replay FILE]
+//! Runs the implementation on generated (or replayed) inputs and writes one JSON line per
+//! correspondence case; the `coq` field is a Gallina expression evaluated by the checker.
 mod blas_shim;
-use clarabel::algebra::*;
-fn main(){
-    let a = CscMatrix::<f64>{m:1,n:1,colptr:vec![1,2],rowval:vec![0,0],nzval:vec![5.,7.]};
-    println!("{:?} nnz={} get={:?}", a.check_format(), a.nnz(), a.get_entry((0,0)));
-    let b = CscMatrix::<f64>::identity(1);
-    let c = CscMatrix::hcat(&a,&b);
-    println!("{:?}", c);
-    let mut d = a.clone(); println!("{:?}", d.canonicalize()); println!("{:?}",d);
+mod common;
+mod c16;
+
+use common::*;
+use serde_json::{json, Value};
+
+fn main() {
+    let args: Vec<String> = std::env::args().collect();
+    if args.len() < 2 { eprintln!("usage: vharness <prop> --out FILE [--seed N] [--tier T] [--replay FILE]"); std::process::exit(2); }
+    let prop = args[1].clone();
+    let mut out = String::from("/dev/stdout");
+    let mut seed: u64 = 1;
+    let mut tier = String::from("quick");
+    let mut replay: Option<String> = None;
+    let mut i = 2;
+    while i < args.len() {
+        match args[i].as_str() {
+            "--out" => { out = args[i + 1].clone(); i += 1; }
+            "--seed" => { seed = args[i + 1].parse().unwrap_or(1); i += 1; }
+            "--tier" => { tier = args[i + 1].clone(); i += 1; }
+            "--replay" => { replay = Some(args[i + 1].clone()); i += 1; }
+            _ => {}
+        }
+        i += 1;
+    }
+    silence_panics();
+    let thorough = tier == "thorough";
+    let mut sink = CaseSink::new(&out);
+    let replay_cases: Option<Vec<Value>> = replay.map(|p| {
+        let txt = std::fs::read_to_string(&p).expect("cannot read replay file");
+        let v: Value = serde_json::from_str(&txt).expect("replay file is not JSON");
+        match v.get("cases") { Some(Value::Array(a)) => a.clone(), _ => vec![v] }
+    });
+    match prop.as_str() {
+        "c16" => {
+            if let Some(cases) = replay_cases { for c in cases.iter() { c16::replay(&mut sink, c); } }
+            else {
+                let st = c16::generate(&mut sink, seed, thorough);
+                sink.record(json!({"stats": st.by_stream}));
+            }
+        }
+        _ => { eprintln!("unknown property {}", prop); std::process::exit(2); }
+    }
+    sink.record(json!({"meta": {"prop": prop, "seed": seed, "tier": tier, "blas": blas_shim::AVAILABLE}}));
+    sink.flush();
 }
